@@ -31,6 +31,9 @@ theorem ext' {a b : Cx ℝ} (h1 : a.re = b.re) (h2 : a.im = b.im) : a = b := by
 @[simp] theorem mk_re (a b : ℝ) : (Cx.mk a b).re = a := rfl
 @[simp] theorem mk_im (a b : ℝ) : (Cx.mk a b).im = b := rfl
 
+theorem div_re (a b : Cx ℝ) : (a / b).re = (a.re * b.re + a.im * b.im) / (b.re * b.re + b.im * b.im) := rfl
+theorem div_im (a b : Cx ℝ) : (a / b).im = (a.im * b.re - a.re * b.im) / (b.re * b.re + b.im * b.im) := rfl
+
 theorem normSq_def (a : Cx ℝ) : Cx.normSq a = a.re * a.re + a.im * a.im := rfl
 
 theorem normSq_mul (a b : Cx ℝ) : Cx.normSq (a * b) = Cx.normSq a * Cx.normSq b := by
